@@ -460,7 +460,7 @@ macro_rules! impl_plain {
             }
             fn edit(&mut self, script: &[EditStep<$t>]) -> Vec<Option<$t>> {
                 let mut peeks = vec![];
-                let mut e = Column::edit(self);
+                let mut e = std::mem::ManuallyDrop::new(Column::edit(self));
                 for s in script {
                     match s {
                         EditStep::Seek(to) => {
@@ -485,7 +485,7 @@ macro_rules! impl_plain {
                     }
                 }
                 e.finish();
-                drop(e);
+                drop(std::mem::ManuallyDrop::into_inner(e));
                 peeks
             }
             fn save(&self) -> Vec<u8> {
@@ -714,7 +714,7 @@ macro_rules! impl_prefix {
             }
             fn edit(&mut self, script: &[EditStep<$t>]) -> Vec<Option<$t>> {
                 let mut peeks = vec![];
-                let mut e = PrefixColumn::edit(self);
+                let mut e = std::mem::ManuallyDrop::new(PrefixColumn::edit(self));
                 for s in script {
                     match s {
                         EditStep::Seek(to) => {
@@ -739,7 +739,7 @@ macro_rules! impl_prefix {
                     }
                 }
                 e.finish();
-                drop(e);
+                drop(std::mem::ManuallyDrop::into_inner(e));
                 peeks
             }
             fn save(&self) -> Vec<u8> {
@@ -1181,7 +1181,7 @@ macro_rules! impl_delta {
             }
             fn edit(&mut self, script: &[EditStep<$t>]) -> Vec<Option<$t>> {
                 let mut peeks = vec![];
-                let mut e = DeltaColumn::edit(self);
+                let mut e = std::mem::ManuallyDrop::new(DeltaColumn::edit(self));
                 for s in script {
                     match s {
                         EditStep::Seek(to) => {
@@ -1206,7 +1206,7 @@ macro_rules! impl_delta {
                     }
                 }
                 e.finish();
-                drop(e);
+                drop(std::mem::ManuallyDrop::into_inner(e));
                 peeks
             }
             fn save(&self) -> Vec<u8> {
@@ -1354,7 +1354,8 @@ macro_rules! impl_delta {
 
 const W62: Dom = Dom::new(-(1 << 62), (1 << 62) - 1);
 const NONNEG: Dom = Dom::new(0, i64::MAX as i128);
-const NEG: Dom = Dom::new(i64::MIN as i128, -1);
+// the running value starts from an implicit 0, so windows contain 0
+const NEG: Dom = Dom::new(-(i64::MAX as i128), 0);
 const SMALL: Dom = Dom::new(0, 100_000);
 
 impl_delta!(u64, "DeltaColumn<u64>", vec![NONNEG, SMALL]);
